@@ -22,6 +22,7 @@ import (
 
 	"oras.land/oras-go/v2/errdef"
 	"oras.land/oras-go/v2/internal/syncutil"
+	"oras.land/oras-go/v2/internal/verifhook"
 )
 
 // DefaultCache is the sharable cache used by DefaultClient.
@@ -107,6 +108,7 @@ func (cc *concurrentCache) Set(ctx context.Context, registry string, scheme Sche
 		scheme.String(),
 		key,
 	}, " ")
+	verifhook.AtKey("auth.cache.set.enter", statusKey)
 	statusValue, _ := cc.status.LoadOrStore(statusKey, syncutil.NewOnce())
 	fetchOnce := statusValue.(*syncutil.Once)
 	fetchedFirst, result, err := fetchOnce.Do(ctx, func() (interface{}, error) {
